@@ -74,17 +74,27 @@ impl<'a> NodeIter<'a> for GraphNodePointer<'a> {
     }
 
     fn node(&self) -> Option<Node> {
+        // inline link urls are relative to the directory of the note; the directory is looked up
+        // only for lines that contain links
+        let normalize = |line_id| {
+            let line = self.graph.get_line(line_id);
+            if line.ref_keys("").is_empty() {
+                line.normalize(self.graph, "")
+            } else {
+                line.normalize(self.graph, &self.graph.node_key(self.id).parent())
+            }
+        };
         match self.graph.graph_node(self.id) {
             GraphNode::Empty => None,
             GraphNode::Document(document) => Some(Node::Document(document.key().clone())),
             GraphNode::Section(section) => Some(Node::Section(
-                self.graph.get_line(section.line_id()).normalize(self.graph),
+                normalize(section.line_id()),
             )),
             GraphNode::Quote(_) => Some(Node::Quote()),
             GraphNode::BulletList(_) => Some(Node::BulletList()),
             GraphNode::OrderedList(_) => Some(Node::OrderedList()),
             GraphNode::Leaf(leaf) => Some(Node::Leaf(
-                self.graph.get_line(leaf.line_id()).normalize(self.graph),
+                normalize(leaf.line_id()),
             )),
             GraphNode::Raw(raw) => Some(Node::Raw(raw.lang(), raw.content().to_string())),
             GraphNode::HorizontalRule(_) => Some(Node::HorizontalRule()),
@@ -108,14 +118,14 @@ impl<'a> NodeIter<'a> for GraphNodePointer<'a> {
                 header: table
                     .header()
                     .iter()
-                    .map(|id| self.graph.get_line(*id).normalize(self.graph))
+                    .map(|id| normalize(*id))
                     .collect(),
                 rows: table
                     .rows()
                     .iter()
                     .map(|row| {
                         row.iter()
-                            .map(|id| self.graph.get_line(*id).normalize(self.graph))
+                            .map(|id| normalize(*id))
                             .collect()
                     })
                     .collect(),
